@@ -38,7 +38,7 @@ type c08Case struct {
 	Workers  int    `json:"workers"`
 	Rate     bool   `json:"rate_limiter"`
 	RateStr  string `json:"rate,omitempty"` // a specific (slow) rate instead of the unnoticeable one of Rate
-	Direct   bool   `json:"direct_engine"` // observe the engine's done channel instead of going through startScanEngine
+	Direct   bool   `json:"direct_engine"`  // observe the engine's done channel instead of going through startScanEngine
 	ExitMs   int    `json:"exit_delay_ms"`
 	PortsArg bool   `json:"addresses_x_ports_mode"`
 	StallMs  int    `json:"writer_stalls_on_first_write_ms"`
